@@ -203,6 +203,9 @@ func prepareReassembly(bs []Bundle) error {
 			return fmt.Errorf("next fragment starts at offset %d, gap from %d to %d", fragOff, lastIndex, fragOff)
 		} else if payloadBlock, err := b.PayloadBlock(); err != nil {
 			return err
+		} else if fragOff+uint64(len(payloadBlock.Value.(*PayloadBlock).Data())) <= lastIndex {
+			// A fragment contained in already covered data must not move the index backwards.
+			continue
 		} else {
 			lastIndex = fragOff + uint64(len(payloadBlock.Value.(*PayloadBlock).Data()))
 		}
@@ -237,6 +240,11 @@ func mergeFragmentPayload(bs []Bundle) (data []byte, err error) {
 			return
 		}
 		fragPayloadData = fragPayloadBlock.Value.(*PayloadBlock).Data()
+
+		if fragStartIndex+len(fragPayloadData) <= lastIndex {
+			// Duplicate or fragment completely contained in the data merged so far.
+			continue
+		}
 
 		data = append(data, fragPayloadData[lastIndex-fragStartIndex:]...)
 		lastIndex = fragStartIndex + len(fragPayloadData)
